@@ -598,6 +598,10 @@ static void decode_enter(struct thr *t, long nr, const unsigned long *a)
     if (se->nr == 88 /* symlink(target, linkpath) */) { char raw[PATHMAX]; if (!read_cstr(t->tid, a[0], raw, 4097)) { snprintf(p->path2, PATHMAX, "%s", raw); p->have_path2 = 1; } }
     if (se->nr == 266) { char raw[PATHMAX]; if (!read_cstr(t->tid, a[0], raw, 4097)) { snprintf(p->path2, PATHMAX, "%s", raw); p->have_path2 = 1; } }
     if (se->fdarg >= 0) p->fd = (int)a[se->fdarg];
+    if (se->nr == 280 && a[1] == 0) { /* futimens(fd): utimensat(fd, NULL, ...) */
+        p->fd = (int)a[0];
+        p->have_path = 0;
+    }
     if (se->nr == 326) p->fd2 = (int)a[0];
     if (se->nr == 16 && (a[1] == FICLONE_CMD)) p->fd2 = (int)a[2];
 }
